@@ -5,7 +5,8 @@ Contracts (trusted, validated natively on every run):
   * Range<usize>, Vec<(usize,u64)> (new/push/deref), slice iter/rev/cloned/enumerate/next = finite sequences
   * Rng::gen::<bool> = fresh Bool; gen_range(a..b) = fresh j with a <= j < b
   * CuckooFilter::hash(&fingerprint) = uninterpreted function HASHF into [0, n_buckets)
-  * CuckooFilter::start(x) = (f, i1, i1 ^ HASHF(f)) for the symbolic element (f != 0, i1 < n_buckets)
+  * CuckooFilter::fingerprint(x) = f and hash(x) = i1 for the symbolic element (f != 0, i1 < n_buckets); `start` itself
+    (how the alternate bucket is derived) is interpreted from its MIR
   * MAX_NUM_KICKS is substituted by the bound of the query (named constant in the MIR)
 """
 import itertools, re, time
@@ -115,8 +116,12 @@ class CkInterp(Interp):
         if fname.endswith('::hash::<u64>'):
             f = self.read_ref(a[1]) if isinstance(a[1], Ref) else a[1]
             return HASHF(f)
-        if fname.endswith('::start'):
-            return list(self.shared['start'])
+        # `start` itself is interpreted from its MIR; only the hasher-dependent leaves are contracts:
+        # fingerprint(x) = f (symbolic, != 0), hash(x) = i1 (symbolic, < n_buckets), hash(&fingerprint) = HASHF(fingerprint)
+        if fname.endswith('::fingerprint'):
+            return self.shared['start'][0]
+        if fname.endswith('::hash::<T>'):
+            return self.shared['start'][1]
         if fname.startswith('core::slice::<impl [(usize, u64)]>::iter'):
             v = a[0]
             v = self.read_ref(v) if isinstance(v, Ref) else v
